@@ -173,6 +173,13 @@ def scan(state, groups, tid):
                        "ener": E.e8([ml * (L["e"] + wl * wl / 2), L["p"] * wl, -mr * (R["e"] + wr * wr / 2), -R["p"] * wr], scale["p"] * cs)}
                 dp = abs(L["p"] - R["p"]) / scale["p"]; du = abs(L["u"] - R["u"]) / max(scale["u"], cs)
                 kind = "contact" if (dp < 1e-6 and du < 1e-6) else "shock"
+                if kind == "shock":
+                    ahead_, behind_ = (L, R) if (ml + mr) > 0 else (R, L)
+                    if behind_["p"] < ahead_["p"] and dp < 0.05:
+                        # a WEAK expansion (pressure drop below 5 %) only a few cells wide: a rarefaction the table does not resolve,
+                        # not a shock; nothing is concluded from this profile (strong expansive jumps are still judged)
+                        stats["pattern"] = "unresolved"
+                        return [], stats
                 ev.append({"k": "Jump", "tid": tid, "kind": kind, "ahead": "L" if (ml + mr) > 0 else "R", "bal": bal, "s": E.sl(sp), "x": E.sl(abs(xi) + 1e-300),
                            "L": {k: E.sl(v) for k, v in L.items()}, "R": {k: E.sl(v) for k, v in R.items()},
                            "cont": {"p": E.e8([L["p"], -R["p"]]), "u": E.e8([L["u"], -R["u"]], cs), "s": E.e8([sp, -0.5 * (L["u"] + R["u"])], cs)}})
